@@ -230,6 +230,14 @@ def collect(ctx, pid):
                     if pid == 'C07' or label == 'enum:new_with_raw_value':
                         out.append({'decl': name, 'label': label, 'ok': ok,
                                     'shape': json.dumps([label, d['bits'], d.get('exh'), len(d['variants'])])})
+        if pid == 'C07':
+            # a rule-valid enum that no longer compiles: its conversions cannot be exact, total or inverse to each other
+            casc = set(ctx.verdicts['cascade'])
+            for name, msgs in ctx.verdicts['rejected'].items():
+                d = ctx.by_name.get(name)
+                if d is not None and d['kind'] == 'enum' and name not in casc and name in ctx.dec and ctx.dec[name][0]:
+                    out.append({'decl': name, 'label': 'compiles', 'ok': False, 'shape': json.dumps(['compiles', d['bits'], d.get('exh')]),
+                                'rustc': msgs[:2]})
         return out
     sel = SELECT.get(pid)
     sl = STRUCT_LABELS.get(pid)
